@@ -208,6 +208,7 @@ def run_shard(spec_, R):
         history.append(ev)
 
     seqs = spec_["seqs"]
+    prev_live = None
     for si, seq in enumerate(seqs):
         if not R.want(["seq", si]):
             continue
@@ -257,6 +258,15 @@ def run_shard(spec_, R):
                     R.check(np.array_equal(np.asarray(r2, float), last[3]), "history_independent",
                             lambda: {**case, "after_history": last[3].tolist() if last[3].size < 5 else "array", "fresh": np.asarray(r2).tolist() if np.size(r2) < 5 else "array"},
                             key="C03:scalar_volume_cache_stale_after_resized_call" if stale else None, group=grp)
+        # two live geometry objects: the geometry of the previous sequence repeats its last call after this one was
+        # built and used (nothing is shared between geometry objects)
+        if prev_live is not None:
+            okp, rp = R.guarded("integrate", lambda: prev_live[0].integrate(prev_live[1]))
+            if okp:
+                R.check(np.array_equal(np.asarray(rp, float), prev_live[2]), "history_independent",
+                        lambda: {**prev_live[3], "what": "repeated after another geometry object was built and used", "other": desc}, group="two_live_objects")
+                R.count("two_live_geometries")
+        prev_live = (geom, last[1], last[3], case) if last is not None else None
         R.sig([desc["class"], dim, desc["weight_kind"], desc["data_kind"], desc["payload"], seq], nontrivial=any(x != 0 for x in seq),
               cls=grp)
         if si < 2:
